@@ -757,7 +757,29 @@ func c18Exec(op c18Op, m *c18Mat, sh *c18Shared) []byte {
 		if pk == nil {
 			pk = m.srKeyPair(op.K % 2).PublicKey()
 		}
-		return c18Bool(pk.Verify(sh.sctx.NewTranscriptBytes(m.msgs[op.M]), sig))
+		single := pk.Verify(sh.sctx.NewTranscriptBytes(m.msgs[op.M]), sig)
+		if op.X&8 == 0 {
+			return c18Bool(single)
+		}
+		// ... and the same entry (two or three times) through an sr25519 batch
+		// verifier of its own: batch verification must not share hidden state
+		// between verifiers that run at the same time
+		bv := sr25519.NewBatchVerifier()
+		for j := 0; j < 2+int(op.X>>4)%2; j++ {
+			bv.Add(pk, sh.sctx.NewTranscriptBytes(m.msgs[op.M]), sig)
+		}
+		rd := c18NewStream(m.seed ^ op.X ^ 0x5b)
+		out := c18Bool(single)
+		if op.X&64 == 0 {
+			out = append(out, c18Bool(bv.VerifyBatchOnly(rd))...)
+		} else {
+			all, each := bv.Verify(rd)
+			out = append(out, c18Bool(all)...)
+			for _, e := range each {
+				out = append(out, c18Bool(e)...)
+			}
+		}
+		return out
 	case "h2c":
 		dst := []byte("c18-h2c-dst")
 		msg := m.msgs[op.M]
